@@ -16,7 +16,7 @@
 (* prints <<"VIOL", clause, line, tag>>; tag names a known-finding         *)
 (* signature when the failing situation matches one exactly.               *)
 (***************************************************************************)
-EXTENDS Integers, Sequences, FiniteSets, TLC, Json, IOUtils, SeatManager
+EXTENDS Integers, Sequences, FiniteSets, TLC, Json, IOUtils, SeatManager, HandJson
 
 VARIABLES l, g
 Trace == ndJsonDeserialize(IOEnv.TRACE)
@@ -71,7 +71,7 @@ G0 == [tr |-> -1, brought |-> 0, taken |-> 0, banks |-> <<>>, bankIds |-> {}, la
        missed |-> <<>>, missedIds |-> {}, ext |-> FALSE, closedBetween |-> FALSE, lastStatus |-> "none",
        cnt |-> <<>>, cntIds |-> {}, actEvents |-> <<>>, spyCalls |-> <<>>, inGate |-> "", blindSet |-> <<>>, blindSetInGate |-> FALSE,
        leftSince |-> {}, faults |-> 0, lastUpd |-> 0, kfMidLeave |-> FALSE,
-       withholdSt |-> <<>>, settledSt |-> <<>>, openSt |-> <<>>, afterFire |-> FALSE, fireSt |-> <<>>]
+       withholdSt |-> <<>>, settledSt |-> <<>>, openSt |-> <<>>, callQ |-> <<>>, pubH |-> <<>>, afterFire |-> FALSE, fireSt |-> <<>>]
 
 Fn(f, ids, x, d) == IF x \in ids THEN f[x] ELSE d
 ZeroCnt == [at |-> 0, ct |-> 0, kt |-> 0, fold |-> FALSE, fr |-> ""]
@@ -112,7 +112,8 @@ Upd(gg, k) ==
                          !.cntIds = @ \cup {t.a.id}, !.actEvents = <<>>, !.spyCalls = <<>>]
         ELSE IF IsRet(t) THEN [g2 EXCEPT !.actEvents = <<>>, !.spyCalls = <<>>]
         ELSE IF t.ev = "cb:action" THEN [g2 EXCEPT !.actEvents = Append(@, t.a)]
-        ELSE IF t.ev = "spy" THEN [g2 EXCEPT !.spyCalls = Append(@, <<t.a.kind, t.res>>), !.faults = @ + (IF t.res = "ok" THEN 0 ELSE 1)]
+        ELSE IF t.ev = "spy" THEN [g2 EXCEPT !.spyCalls = Append(@, <<t.a.kind, t.res, t.a.amt>>), !.faults = @ + (IF t.res = "ok" THEN 0 ELSE 1),
+                                             !.callQ = IF t.res = "ok" THEN (IF t.a.kind = "create" THEN <<t.a>> ELSE Append(@, t.a)) ELSE @]
         ELSE g2
       g4 == \* ---- hand life cycle seen through trustworthy snapshots
         IF ~Trusty(t) THEN g3
@@ -129,7 +130,11 @@ Upd(gg, k) ==
                   THEN [g3 EXCEPT !.handLive = FALSE, !.afterBank = Banks(st), !.afterIds = Ids(st), !.gids = @ \cup {H(st).gid},
                                   !.settledSt = <<st>>]
                   ELSE g3
-            gC == IF HasHand(st) /\ t.ev = "cb:updated" THEN [gA EXCEPT !.lastUpd = H(st).upd] ELSE gA
+            gC == IF HasHand(st) /\ t.ev = "cb:updated"
+                  THEN (IF H(st).upd # gA.lastUpd
+                        THEN [gA EXCEPT !.lastUpd = H(st).upd, !.pubH = <<StripWrapper(ToHand(H(st)))>>, !.callQ = IF @ = <<>> THEN <<>> ELSE Tail(@)]
+                        ELSE gA)
+                  ELSE gA
         IN [gC EXCEPT !.banks = Banks(st), !.bankIds = Ids(st), !.lastStatus = st.status]
       g5 == \* players that left the table lose their waiting counters
         IF t.ev \in {"ret:PlayersLeave", "ret:UpdateTablePlayers"} /\ t.res = "ok"
@@ -343,7 +348,7 @@ C10_published(t, gg) ==
   (t.ev \in ActEvs /\ t.res = "ok" /\ Len(t.pre) = 1 /\ t.a.id \in Ids(t.pre[1])) =>
     IF t.a.kind \in TurnKinds
     THEN /\ Len(TurnEvents(gg)) = 1 /\ MatchingEvent(TurnEvents(gg)[1], t)
-         /\ TurnCalls(gg) = << <<t.a.kind, "ok">> >>
+         /\ TurnCalls(gg) = << <<t.a.kind, "ok", IF t.a.kind \in {"bet", "raise"} THEN t.a.amt ELSE 0>> >>
          /\ t.st.la # <<>> => (t.st.la[1].id = t.a.id /\ t.st.la[1].action = t.a.kind /\ t.st.la[1].seat = P(t.pre[1], t.a.id).seat
                                /\ t.st.la[1].gc = t.pre[1].gc /\ t.st.la[1].round = H(t.pre[1]).round)
     ELSE /\ TurnEvents(gg) = <<>> /\ TurnCalls(gg) = <<>>
@@ -369,6 +374,22 @@ C11_noEarlyAdvance(t, gg) ==
 HandStall(t) == t.ev = "idle" \/ (t.ev = "stuck" /\ t.a.kind = "hand")
 C11_progress(t, gg) == (HandStall(t) /\ gg.faults = 0 /\ ~gg.ext) => FALSE
 C11_resultComplete(t, gg) == IsSettledSnap(t) => Len(ResultOf(t.st)) = Len(gg.handIds) /\ Len(H(t.st).p) = Len(gg.handIds)
+
+\* ---------------------------------------------------------------- hand conformance (C10 "applied once", C11 "moves on by itself")
+\* Every hand state the table publishes is the rules' result of exactly the next successful backend call applied to the
+\* previously published state (calls and publications are both FIFO).
+PubStep(t, gg) ==
+  LET new == StripWrapper(ToHand(H(t.st)))  c == gg.callQ[1] IN
+  IF c.kind = "create"
+  THEN new = StripWrapper(NewHand([i \in 1..Len(c.joins) |-> c.joins[i][2]],
+                                  [i \in 1..Len(c.joins) |-> {c.joins[i][j] : j \in 3..Len(c.joins[i])}],
+                                  c.blind[1], c.blind[2], c.blind[3], c.blind[4]))
+  ELSE Len(gg.pubH) = 1 /\ new = Apply(gg.pubH[1], c.kind, c.amt)
+HasPubStep(t, gg) == FirstPub(t, gg) /\ gg.callQ # <<>> /\ ~gg.kfMidLeave
+C10_appliedOnce(t, gg) == (HasPubStep(t, gg) /\ gg.callQ[1].kind \in TurnKinds) => PubStep(t, gg)
+C11_autoStep(t, gg) == (HasPubStep(t, gg) /\ gg.callQ[1].kind \in {"readyall", "ante", "blinds", "next"}) => PubStep(t, gg)
+C02_handCreated(t, gg) == (HasPubStep(t, gg) /\ gg.callQ[1].kind = "create") => PubStep(t, gg)
+C11_publishedInOrder(t, gg) == FirstPub(t, gg) => gg.callQ # <<>>
 
 \* ---------------------------------------------------------------- C12
 C12_createAtOpenBlind(t, gg) ==
@@ -453,6 +474,10 @@ CheckLine(k, gg) ==
      /\ Clause("C10_acceptedLegal", C10_acceptedLegal(t), "", k)
      /\ Clause("C10_refusedNoTrace", C10_refusedNoTrace(t, gg), "", k)
      /\ Clause("C10_published", C10_published(t, gg), "", k)
+     /\ Clause("C10_appliedOnce", C10_appliedOnce(t, gg), "", k)
+     /\ Clause("C11_autoStep", C11_autoStep(t, gg), "", k)
+     /\ Clause("C02_handCreated", C02_handCreated(t, gg), "", k)
+     /\ Clause("C11_publishedInOrder", C11_publishedInOrder(t, gg), "", k)
      /\ Clause("C11_askedSets", C11_askedSets(t, gg), "", k)
      /\ Clause("C11_noEarlyAdvance", C11_noEarlyAdvance(t, gg), "", k)
      /\ Clause("C11_progress", C11_progress(t, gg), kfmid, k)
